@@ -4,6 +4,7 @@ use crate::util::Ctx;
 
 pub mod c01;
 pub mod c02;
+pub mod c03;
 pub mod c04;
 pub mod c06;
 pub mod c09;
@@ -17,6 +18,7 @@ pub fn dispatch(ctx: &mut Ctx) -> bool {
 	match ctx.id.as_str() {
 		"C01" => c01::run(ctx),
 		"C02" => c02::run(ctx),
+		"C03" => c03::run(ctx),
 		"C04" => c04::run(ctx),
 		"C06" => c06::run(ctx),
 		"C09" => c09::run(ctx),
@@ -37,6 +39,7 @@ pub fn confirm(key: &str) -> Option<Option<String>> {
 	match prop {
 		"C01" => c01::confirm(key),
 		"C02" => c02::confirm(key),
+		"C03" => c03::confirm(key),
 		"C04" => c04::confirm(key),
 		"C06" => c06::confirm(key),
 		"C09" => c09::confirm(key),
